@@ -449,6 +449,23 @@ func c10Gen(tier string, rng *rand.Rand, emit func(Case)) {
 	// a response that ends in a package cut short by the end of the message, then further responses in small
 	// packets (c02.go): nothing left over from the broken one may reach the next (stale read position)
 	brokenThenNextGen(tier, rng, emit)
+	// a packet size announcement is server input too, and it may arrive while the client is composing a
+	// message (the server sees the first full packets of a long request before the client has queued the
+	// rest): smaller and larger sizes with a partly filled packet queued (`tx` lines of c01.go)
+	for _, ps := range []int{512, 2048, 256} {
+		for _, ps2 := range []int{256, 512, 2048, 4096, 9, 65535} {
+			if ps2 == ps {
+				continue
+			}
+			for _, first := range []int{1, ps/2 - 8, ps - 9, ps - 8, ps + 100} {
+				if first < 1 {
+					continue
+				}
+				emit(Case{Line: fmt.Sprintf("tx %d 0 0 q:g:%d:1 ps:%d q:g:%d:2 f", ps, first, ps2, 3+rng.Intn(3*ps2)), Kind: "size-change-while-composing"})
+				emit(Case{Line: fmt.Sprintf("tx %d 1 5 q:g:%d:1 ps:%d s:g:%d:2", ps, first, ps2, 1+rng.Intn(700)), Kind: "size-change-while-composing"})
+			}
+		}
+	}
 	// the login negotiation is server input too: the reply scripts of C08 that carry an unusable key or
 	// nonce, or none (c08.go)
 	loginGen(tier, rng, func(c Case) {
@@ -481,6 +498,9 @@ func c10Impl(line string) string {
 	if strings.HasPrefix(line, "login ") {
 		return loginImpl(line)
 	}
+	if strings.HasPrefix(line, "tx ") {
+		return txImpl(line)
+	}
 	return pkgImpl(line)
 }
 
@@ -503,6 +523,12 @@ func c10Oracle(line, out string) string {
 			if ps < 9 || ps > 65535 {
 				return "no server input makes the client crash or hang on its next send (an unusable packet size is never put in force)"
 			}
+		}
+		return ""
+	}
+	if strings.HasPrefix(line, "tx ") {
+		if strings.Contains(out, "panic") || out == "crash" || out == "timeout" {
+			return "no server input makes the client crash on its next send (a packet size announced while a message is being composed)"
 		}
 		return ""
 	}
